@@ -106,11 +106,13 @@ def run_harnesses(pid, specs, jobs=None):
     """specs: list of harness dicts (table.py). Returns dict name -> result (with spec)."""
     if not specs:
         return {}, []
-    n_chunks = jobs or min(4, max(1, len(specs) // 3))
+    n_chunks = jobs or min(6 if len(specs) > 40 else 4, max(1, len(specs) // 3))
     # heavy harnesses get a chunk of their own
     heavy = [s for s in specs if s.get("heavy")]
     light = [s for s in specs if not s.get("heavy")]
-    chunks = [[s] for s in heavy] + [light[i::n_chunks] for i in range(n_chunks) if light[i::n_chunks]]
+    n_heavy = min(6, len(heavy))
+    chunks = [heavy[i::n_heavy] for i in range(n_heavy)] + \
+             [light[i::n_chunks] for i in range(n_chunks) if light[i::n_chunks]]
     timeout_s = KANI_TIMEOUT_S or (1500 if tier() == "quick" else 5400)
 
     def go(item):
@@ -162,3 +164,82 @@ def classify(r):
             return "inconclusive", "FAILED without failed checks (solver/resource error?)"
         return "fail", ""
     return "inconclusive", r["status"]
+
+
+# ---------------------------------------------------------------------------------------------
+# native concrete playback (stub-free harnesses only): Kani prints a unit test with the concrete
+# values of the counterexample; the test is compiled into a scratch copy of the harness files and
+# run natively against the real code.
+# ---------------------------------------------------------------------------------------------
+
+MODULE_FILES = {
+    "filter::verif_kani": "filter.rs",
+    "walk::glob::verif_kani": "walk_glob.rs",
+    "walk::verif_kani": "walk_mod.rs",
+    "walk::behavior::verif_kani": "walk_behavior.rs",
+    "token::variance::verif_kani": "variance.rs",
+    "verif_kani": "lib.rs",
+}
+
+_TEST = re.compile(r"```\n(.*?)```", re.S)
+
+
+def native_playback(tag, names):
+    """-> list of (harness, reproduced: bool, test_source)"""
+    target = os.path.join(BUILD, "kani-pb-" + tag)
+    cmd = ["cargo", "kani", "--manifest-path", os.path.join(REPO, "Cargo.toml"), "--target-dir", target,
+           "--exact", "-Z", "concrete-playback", "--concrete-playback=print"]
+    for n in names:
+        cmd += ["--harness", n]
+    try:
+        p = subprocess.run(cmd, env=kani_env(), capture_output=True, text=True, timeout=1500,
+                           preexec_fn=_limits)
+    except subprocess.TimeoutExpired:
+        return []
+    text = p.stdout
+    scratch = os.path.join(BUILD, "playback-" + tag)
+    shutil.rmtree(scratch, ignore_errors=True)
+    os.makedirs(os.path.join(scratch, "kani"))
+    for f in os.listdir(os.path.join(VERIF, "kani")):
+        shutil.copy(os.path.join(VERIF, "kani", f), os.path.join(scratch, "kani", f))
+    tests = []
+    for block in _TEST.findall(text):
+        m = re.search(r"Test generated for harness `([^`]+)`", block)
+        t = re.search(r"fn (kani_concrete_playback_\w+)\(", block)
+        if not m or not t:
+            continue
+        harness = m.group(1)
+        module, fn = harness.rsplit("::", 1)
+        inner = ""
+        # harnesses in nested modules (rows::, closure::) are referenced from the mounted module
+        for mod, fname in sorted(MODULE_FILES.items(), key=lambda kv: -len(kv[0])):
+            if module == mod or module.startswith(mod + "::"):
+                inner = module[len(mod):].lstrip(":")
+                break
+        else:
+            continue
+        src = block
+        if inner:
+            src = src.replace(", %s);" % fn, ", %s::%s);" % (inner, fn))
+        with open(os.path.join(scratch, "kani", fname), "a") as f:
+            f.write("\n" + src + "\n")
+        tests.append((harness, t.group(1), src))
+    if not tests:
+        return []
+    env = kani_env(scratch)
+    env["CARGO_TARGET_DIR"] = os.path.join(BUILD, "playback-target")
+    cmd = ["cargo", "kani", "playback", "-Z", "concrete-playback", "--manifest-path",
+           os.path.join(REPO, "Cargo.toml"), "--", "kani_concrete_playback"]
+    try:
+        p = subprocess.run(cmd, env=env, capture_output=True, text=True, timeout=1500)
+    except subprocess.TimeoutExpired:
+        return []
+    out = p.stdout + p.stderr
+    with open(os.path.join(BUILD, "logs", "playback-%s.log" % tag), "w") as f:
+        f.write(out)
+    res = []
+    for harness, test, src in tests:
+        failed = re.search(r"test \S*%s \.\.\. FAILED" % re.escape(test), out) is not None
+        res.append((harness, failed, src))
+    shutil.rmtree(scratch, ignore_errors=True)
+    return res
